@@ -739,12 +739,14 @@ Inductive op :=
 | OStop | OWait | OLose       (* Stop / a Wait call in the background / the runtime drops an established session *)
 | OStopStart (b : behaviour)  (* Stop immediately followed by Start: the close notification of the
                                  stopped session may run before or after the new Start *)
+| OStartMany (b : behaviour) (n : nat) (* n Starts in a row against b (each returns before the next), observed once at the end *)
 | OStartStart (f b : behaviour). (* Start against a runtime behaving as f (meant to fail) immediately followed
                                  by Start against b: the close notification of the first attempt's client
                                  may run before or after the second Start *)
 
 (* what is observed of one operation *)
-Inductive oclass := KOk | KErr | KReturned | KBlocked.
+Inductive oclass := KOk | KErr | KReturned | KBlocked
+| KCrashed.  (* the process died (a panic in the code under test); no model predicts this, under any switches *)
 Record obs := {
   o_class : oclass;
   o_started : option bool;  (* IsStarted; None = the call does not return (the lock is held for ever) *)
@@ -775,6 +777,8 @@ Definition do_op_with (st : switches -> state -> state) (sw : switches) (s : sta
       let s1 := st sw (run_start sw s b) in [(s1, observe (start_class s1) s1)]
   | ORun b =>
       let s1 := st sw (run_run sw s b) in [(s1, observe (start_class s1) s1)]
+  | OStartMany b n =>
+      let s1 := Nat.iter n (fun x => st sw (run_start sw x b)) s in [(s1, observe (start_class s1) s1)]
   | OStop => let s1 := st sw (step sw s AStop) in [(s1, observe (end_class s1) s1)]
   | OWait => let s1 := step sw s AWait in [(s1, observe KReturned s1)]
   | OLose => let s1 := st sw (step sw s EConnLost) in [(s1, observe KReturned s1)]
